@@ -45,6 +45,7 @@ fn coll_len(e: &mut Ent, depth: usize) -> usize {
         _ => e.range(1, 4),
     }
 }
+#[allow(dead_code)]
 fn small_len(e: &mut Ent, depth: usize) -> usize {
     if depth == 0 {
         0
